@@ -201,3 +201,21 @@ def stage_generic_harnesses(sels=("SEL_READ", "SEL_WRITE")):
                                  functions=["%s read/write wrappers and X_read_block / X_write_block" % cfile],
                                  bounds="%d channel(s), one call of 6 items to/from an exact-size heap block (symbolic values; position-distinct constants for float/double writes), a few frames into the block, staging buffer 8 bytes (hook)" % ch))
     return out
+
+
+def codec_seek_harnesses():
+    """X_seek target arithmetic of IMA ADPCM (WAV and AIFF layouts) with the block decoder stubbed (harness/L3/stage_generic.c SEL_SEEK)."""
+    out = []
+    for cid, cfile, tag, chs, extra in (("IMA", "ima_adpcm.c", "ima_wav", (1, 2), {}), ("IMA", "ima_adpcm.c", "ima_aiff", (1, 2), {"AIFF_LAYOUT": 1})):
+        # (gsm610_seek is not registered: GSM files report seekable = 0, sf_seek refuses them, so its non-zero targets - where it computes the
+        #  file position from samples-per-block instead of the block size - cannot be reached through the public API: a unit-level
+        #  counterexample there is not a finding, DESIGN B.4)
+        for ch in chs:
+            d = {"SEL_SEEK": 1, "CODEC_" + cid: 1, "CODEC_FILE": '"%s"' % cfile, "API_s": 1, "CH": ch, "LEN": 6, "SC": 5, "LIBSNDFILE_VERIF_BUFFER_LEN": 8,
+                 "MF_CAP": 16, "MF_MAXIO": 16, "MF_ABSTRACT": 1, "SNP_MAX": 40, "PSF_MEMSET_MAX": 64, "MEMCPY_MAX": 40}
+            d.update(extra)
+            out.append(H("seek.%s.ch%d" % (tag, ch), "L3/stage_generic.c", link=["common"] + (["GSM610/gsm_create", "GSM610/gsm_destroy", "GSM610/gsm_option"] if cid == "GSM" else []),
+                         stubs=["psf_log_printf", "psf_memset"], defines=d, unwind=9, unwindset=["psf_fread.0:17", "memcpy.0:41", "memset.0:41", "snprintf.0:41", "snprintf.1:41"], checks="mem", fsa=400,
+                         include_env=("log_stub", "memfile", "memset_model", "snprintf_model", "memcpy_model"), timeout=300,
+                         functions=["wavlike_ima_seek / aiff_ima_seek / gsm610_seek"], bounds="%d channel(s), 6 blocks, any 64-bit frame offset; block decoder = stub that records where it was called" % ch))
+    return out
